@@ -60,7 +60,8 @@ DiagDoc ==
     LET cls == DocClass(Ev.doc) IN
     IF Ev.outcome \notin Outcomes THEN "Totality:" \o Ev.fmt \o ":" \o cls \o ":other-exception"
     ELSE IF Ev.outcome \notin Allowed(Ev.fmt, cls, Ev.noise)
-      THEN "DocOutcome:" \o Ev.fmt \o ":" \o cls \o B(Ev.noise > 0, ":noise", "") \o ":got-" \o Ev.outcome
+      THEN "DocOutcome:" \o Ev.fmt \o ":" \o cls \o B(Ev.noise > 0, ":noise", "")
+           \o B(Ev.ind, ":indented-start-line", "") \o ":got-" \o Ev.outcome
       ELSE "DocValue:" \o Ev.fmt \o ":" \o cls \o B(Ev.noise > 0, ":noise", "") \o ":value-differs"
 
 SetDiff(res, ref) ==
